@@ -66,6 +66,8 @@ type runner struct {
 	recent []opRec
 	stop   bool
 	abci   bool
+	// next execute() lets the batch time out instead of executing it
+	timeoutNext bool
 }
 
 // syncHeight: in ABCI mode an operation executes in the next block. Blocks whose end-blocker
@@ -549,6 +551,31 @@ func (x *runner) execute(t *token) {
 		if rt.Cmp(p.tax) != 0 || tx.Erc20Token.Amount.BigInt().Cmp(p.amt) != 0 {
 			x.violate("execute/batched-transfer-record", fmt.Sprintf("transfer %d in batch: amount %s tax %s, paid at send: amount %s tax %s", tx.Id, tx.Erc20Token.Amount, rt, p.amt, p.tax), o, t, nil)
 		}
+	}
+	if x.timeoutNext {
+		// the batch times out instead (exported keeper function the end-blocker calls for a batch
+		// past its timeout): the transfers return to the pool and must still carry amount and tax
+		x.timeoutNext = false
+		if err := k.CancelOutgoingTXBatch(ctx, *contract, batch.BatchNonce); err != nil {
+			x.rec.Inconclusive("CancelOutgoingTXBatch: " + firstLine(err.Error()))
+			x.stop = true
+			return
+		}
+		write()
+		after := x.observe(0, t)
+		x.rec.Count("batches_timed_out", 1)
+		if before.Supply.Cmp(after.Supply) != 0 || before.Module.Cmp(after.Module) != 0 {
+			x.violate("timeout/funds-moved", "a timed-out batch changed supply or module balance", o, t, map[string]any{"before": before, "after": after})
+		}
+		for _, id := range ids {
+			p := x.m.pending[id]
+			ramt, rtax, _, found := x.pendingRealFast(t, p.amt, id)
+			x.rec.Eval(1)
+			if !found || ramt.Cmp(p.amt) != 0 || rtax.Cmp(p.tax) != 0 {
+				x.violate("timeout/returned-transfer-record", fmt.Sprintf("transfer %d after batch timeout: found=%v amount %v tax %v, paid at send: amount %s tax %s", id, found, ramt, rtax, p.amt, p.tax), o, t, nil)
+			}
+		}
+		return
 	}
 	claim := skywaytypes.MsgBatchSendToRemoteClaim{EventNonce: 1, SkywayNonce: 1, EthBlockHeight: 1, BatchNonce: batch.BatchNonce,
 		TokenContract: t.erc20, ChainReferenceId: chainRef, Orchestrator: x.vals[0].Acct.Bech, Metadata: world.Meta(x.vals[0].Acct)}
